@@ -449,6 +449,12 @@ def run_subset_history(case, out):
             other = build_subset(arg['v'])
             om = items_mask(arg['v'])
             if (s == other) != (model == om):
+                reps = rep_problems(list(s.codepoints)) | rep_problems(list(other.codepoints))
+                if reps and model == om:
+                    # same members but one side is not in canonical form (listed representation findings):
+                    # equality compares the representations
+                    raise Mismatch('C13/subset/equality-not-extensional/%s' % sorted(reps)[0],
+                                   '== is False for equal sets; representation problems %s' % sorted(reps))
                 raise Mismatch('C13/subset/equality/cmp', '== gives %r for masks equal=%r' % (s == other, model == om))
             if popcount(model) < 500 and popcount(om) < 500:
                 if s.isdisjoint(other) != (model & om == 0):
